@@ -104,7 +104,7 @@ Proof.
   destruct (nth_error (ents (w_st w)) e) as [en|] eqn:Hn; [|apply nth_error_None in Hn; lia].
   cbn [rbind]. match goal with |- exists _, (if ?B then _ else _) = _ /\ _ => destruct B end.
   - destruct (get_latest_total (real_evl w) g w e false [sd] en I He Hn) as (w' & Eg). exists w'. split; [exact Eg|].
-    destruct (get_latest_pres (real_evl w) g w e false [sd] w' I He Eg) as (I1 & Hp & _ & _ & _ & Hlen).
+    destruct (get_latest_pres (real_evl w) g w e false [sd] w' I He Eg) as (I1 & Hp & _ & _ & _ & Hlen & _).
     split; [|exact Hlen]. unfold Inv. apply (InvP_ext (real_evl w)); [intros sd0; unfold real_evl; rewrite Hp; reflexivity|exact I1].
   - exists w. auto.
 Qed.
@@ -149,7 +149,8 @@ Proof.
   - rewrite (revivify_total g w e en false I He Hn), (revivify_total g w e en true I He Hn). cbn [rbind].
     destruct (finished_total g w e en false I He Hn) as (wa & Ea). rewrite Ea. cbn [rbind].
     assert (Hd: is_discarded (e_ign en) = true) by (rewrite Hi; reflexivity).
-    destruct (finished_pres0 g w e en false wa I He Hn) with (3 := Ea) as (Ia & _ & _ & _ & ena & Hna & _).
+    destruct (finished_pres0 g w e en false wa I He Hn) with (4 := Ea) as (Ia & _ & _ & _ & ena & Hna & _).
+    { intros X. rewrite Hd in X. discriminate. }
     { intros X. rewrite Hd in X. discriminate. }
     { intros k ob cs _ _ _ _ X. rewrite Hd in X. discriminate. }
     destruct (finished_total g wa e ena true Ia He Hna) as (wb & Eb). rewrite Eb. cbn [rbind]. eauto.
@@ -171,7 +172,7 @@ Proof.
     destruct x as [|[|x]]; [congruence|congruence|lia]. }
   destruct (fill_paths_total g ord w I Hord) as (w1 & Ef & Lf). rewrite Ef in H. cbn [rbind] in H.
   assert (Hord2: Forall (fun e => (2 <= e)%nat) ord) by (eapply Forall_impl; [|exact Hord]; intros x (A & _); exact A).
-  destruct (fill_paths_pres g ord w w1 I Hord2 Ef) as (I1 & T1 & P1).
+  destruct (fill_paths_pres g ord w w1 I Hord2 Ef) as (I1 & T1 & P1 & _).
   assert (Htick: tick w1 = (fst (tick w1), now (w_st w1) + 1000)) by reflexivity.
   rewrite Htick in H.
   pose proof (Inv_tick g w1 I1) as I2. set (w2 := fst (tick w1)) in *.
@@ -269,7 +270,7 @@ Lemma create_total g w e en s k ob cs n c :
                 (pstr [root_name (negb s); n]) = OutOfFragment c ->
   In c G_CREATE.
 Proof.
-  intros HU HSC. pose proof HSC as HSC'. revert HSC. intros [I He Hn Hr] Hign Ho Hob Hl Hg Hot Hpath Hnok Hsp Hc Htf H.
+  intros HU HSC. pose proof HSC as HSC'. revert HSC. intros [I He Hn Hr Hsh] Hign Ho Hob Hl Hg Hot Hpath Hnok Hsp Hc Htf H.
   set (t := negb s) in *. set (p := [root_name t; n]).
   pose proof (i_cfg _ _ _ I) as Hcfg. pose proof (i_ents _ _ _ I e en He Hn) as EO.
   destruct (tname_world_facts w e s en (pstr [root_name s; n]) Htf) as (TA & TB & TC & TD & TF & TG & TH).
@@ -362,7 +363,7 @@ Lemma upload_total g w e en s k ob cs k' ob' n c :
   upload_synced (setx (tname_world w e s en (pstr [root_name s; n])) e s (set_tfile (ProvModel.o_data ob))) e s = OutOfFragment c ->
   False.
 Proof.
-  intros [I He Hn Hr] Hign Ho Hob Hl Hg Hot Hobt Hpath Hsp Hc Htf H.
+  intros [I He Hn Hr Hsh] Hign Ho Hob Hl Hg Hot Hobt Hpath Hsp Hc Htf H.
   set (t := negb s) in *.
   pose proof (i_cfg _ _ _ I) as Hcfg. pose proof (i_ents _ _ _ I e en He Hn) as EO.
   assert (Hndisc: is_discarded (e_ign en) = false) by (rewrite Hign; reflexivity).
@@ -446,7 +447,7 @@ Lemma delete_total g w e en s k c :
   delete_synced w e s = OutOfFragment c ->
   In c G_DELETE.
 Proof.
-  intros [I He Hn Hr] Hign Hex Ho H.
+  intros [I He Hn Hr Hsh] Hign Hex Ho H.
   set (t := negb s) in *.
   pose proof (i_cfg _ _ _ I) as Hcfg. pose proof (i_tape _ _ _ I) as Htape. pose proof (i_ents _ _ _ I e en He Hn) as EO.
   assert (Hndisc: is_discarded (e_ign en) = false) by (rewrite Hign; reflexivity).
@@ -545,7 +546,7 @@ Qed.
 
 (* ------------------------------------------------------------------ SyncManager.sync: the OutOfFragment answers that are left *)
 Definition G_EMBRACE : list N :=
-  [X_IRRELEVANT; X_LEVEL + 3; X_MISSING; X_HASHDIFF_GONE; X_PEERS; X_DELETE_OTHER].
+  [X_LEVEL + 3; X_MISSING; X_PEERS; X_DELETE_OTHER].
 Definition G_SYNC : list N := G_EMBRACE.
 
 Ltac oof_code E :=
@@ -557,20 +558,33 @@ Ltac oof_code E :=
 Lemma hash_diff_total g w e en s c :
   SCtx g w e en -> e_ign en = INone -> needs_sync (cfg_std 1) s (gs en s) = true ->
   notmp w e -> ex_in_gone (s_ex (gs en s)) = false -> s_hash (gs en s) <> s_shash (gs en s) ->
-  handle_hash_diff w e s = OutOfFragment c -> c = X_HASHDIFF_GONE.
+  is_creation (cfg_std 1) en s = false ->
+  handle_hash_diff w e s = OutOfFragment c -> False.
 Proof.
-  intros SC Hign Hns Htmp Hex Hdiff H.
+  intros SC Hign Hns Htmp Hex Hdiff Hncr H.
   pose proof (sc_inv _ _ _ _ SC) as I. pose proof (sc_en _ _ _ _ SC) as Hn.
   destruct (needs_sync_parts g w e en SC s Hns) as (Hc & o & Ho).
   destruct (side_obj g w e en SC s o Ho) as (k & ob & n & -> & Hob & Hk2 & FO & Hkf & Hp & Hnok).
   unfold handle_hash_diff in H. unfold get_e, lift, get_ent in H. rewrite Hn in H. cbn [rbind] in H.
   destruct (fo_path _ _ _ _ _ _ _ _ FO) as [Hpn|Hps]; [rewrite Hpn in H; discriminate|].
   rewrite Hps in H.
-  destruct (ex_in_gone (s_ex (gs en (negb s))) || negb (tstr (s_oid (gs en (negb s)))))%bool eqn:Eg; [injection H as <-; reflexivity|].
-  exfalso.
+  destruct (hashdiff_owner g w e en Hign s k ob Hdiff Ho FO) as (csg0 & Hg0).
+  pose proof (i_ents _ _ _ I e en (sc_e _ _ _ _ SC) Hn) as EO.
+  destruct (ex_in_gone (s_ex (gs en (negb s))) || negb (tstr (s_oid (gs en (negb s)))))%bool eqn:Eg.
+  { clear H. destruct (s_oid (gs en (negb s))) as [o'|] eqn:Eo'.
+    - destruct (side_obj g w e en SC (negb s) o' Eo') as (k' & ob' & n' & -> & Hob' & Hk2' & FO' & _).
+      rewrite tstr_ostr in Eg. cbn [negb orb] in Eg. rewrite orb_false_r in Eg.
+      destruct (fo_owner _ _ _ _ _ _ _ _ FO (nd en Hign) csg0 Hg0) as (_ & _ & _ & _ & P5).
+      assert (Hne: s_oid (gs en (negb s)) <> None) by (rewrite Eo'; discriminate).
+      destruct (P5 Hne) as (_ & _ & _ & Q4).
+      destruct (fo_mirror _ _ _ _ _ _ _ _ FO' (nd en Hign) (Q4 k' Eo')) as (_ & M2 & _). rewrite M2 in Eg. discriminate.
+    - (* no peer: then the entry is a creation *)
+      assert (Hexx: s_ex (gs en s) = ExExists).
+      { destruct (sc_shape _ _ _ _ SC s) as [(X & _)|X]; [rewrite Ho; discriminate|exact X|congruence]. }
+      unfold is_creation in Hncr. rewrite Hps, Hexx, Hns, Eo' in Hncr. rewrite tstr_pstr in Hncr. cbn in Hncr. discriminate. }
   apply orb_false_elim in Eg as [Eg1 Eg2]. apply negb_false_iff in Eg2. destruct (tstr_some _ Eg2) as (o' & Ho').
   destruct (side_obj g w e en SC (negb s) o' Ho') as (k' & ob' & n' & -> & Hob' & Hk2' & FO' & _).
-  destruct (hashdiff_owner g w e en Hign s k ob Hdiff Ho FO) as (csg & Hg).
+  pose proof Hg0 as Hg. set (csg := csg0) in *.
   rewrite Hp in Hps.
   destruct (ProvModel.o_exists ob) eqn:El.
   - rewrite (download_live w e s en _ k ob (i_cfg _ _ _ I) (i_pwf _ _ _ I s) (Htmp s) Hn Hps Ho Hob El Hkf) in H.
@@ -631,14 +645,19 @@ Proof.
   unfold embrace_change in H. unfold get_e, lift, get_ent in H. rewrite Hn in H. cbn [rbind] in H.
   rewrite (i_cfg _ _ _ I) in H.
   match type of H with (rbind ?A _) = _ => destruct A as [[]|c0] eqn:E0 end.
-  2:{ cbn [rbind] in H. injection H as <-. oof_code E0. left. reflexivity. }
+  2:{ exfalso. clear H. destruct (fo_path _ _ _ _ _ _ _ _ FO) as [Hpn|Hps].
+      - rewrite Hpn in E0. cbn [tstr orb] in E0.
+        destruct (sc_shape _ _ _ _ SC s) as [(_ & X)|X]; [rewrite Ho; discriminate|contradiction|].
+        destruct (s_ex (gs en s)); simpl in X, E0; discriminate.
+      - rewrite Hps, Hp in E0. pose proof (translate_file (negb s) n Hnok) as Htr. rewrite negb_involutive in Htr. rewrite Htr in E0.
+        destruct (_ || _)%bool in E0; discriminate. }
   cbn [rbind] in H. clear E0.
   rewrite Hign in H. cbn [is_discarded is_conflicted] in H.
   match type of H with (rbind ?A _) = _ => destruct A as [pc|c0] eqn:Epc end.
   2:{ exfalso. oof_code Epc. }
   cbn [rbind] in H. clear Epc.
   destruct pc as [ce|].
-  { unfold gate, lvl in H. rewrite (i_cfg _ _ _ I) in H. cbn in H. injection H as <-. right. left. reflexivity. }
+  { unfold gate, lvl in H. rewrite (i_cfg _ _ _ I) in H. cbn in H. injection H as <-. left. reflexivity. }
   rewrite oip_std in H.
   destruct (ex_is (s_ex (gs en s)) ExTrashed) eqn:Et.
   - assert (Ex: s_ex (gs en s) = ExTrashed) by (destruct (s_ex (gs en s)); simpl in Et; congruence).
@@ -670,7 +689,7 @@ Proof.
       destruct (oN_eqb (s_hash (gs en s)) (s_shash (gs en s))) eqn:Eh; cbn [negb] in H; [discriminate|].
       destruct (handle_hash_diff w e s) as [[[w2 cs2] rs2]|c0] eqn:Ed; [cbn [rbind] in H; discriminate|].
       cbn [rbind] in H. injection H as <-.
-      rewrite (hash_diff_total g w e en s c0 SC Hign Hns Htmp Hgone); [unfold G_EMBRACE; cbn; auto 10| |exact Ed].
+      exfalso. apply (hash_diff_total g w e en s c0 SC Hign Hns Htmp Hgone); [|exact Ecr|exact Ed].
       intros X. rewrite X, oN_eqb_refl in Eh. discriminate.
 Qed.
 
